@@ -627,16 +627,796 @@ pub mod fenwick {
     }
 }
 
+// ===========================================================================
+// Large-scale sub-checks (`C18/large-*`): every size parameter (container length, push_values count,
+// number of diverted big values, Fenwick length) is pushed across the ladder 255/256/257 ... 2^20+1.
+// Cases hold generator parameters and a seed; the data is expanded deterministically with splitmix64.
+
+pub mod large {
+    use super::*;
+    use crate::oracles::scale::c071718::{is_ladder, lab, ladder_upto, pow2_triples, sample_positions, watched, Rng, LADDER};
+
+    /// n for the random companions of the ladder sub-checks: moderate sizes, ladder neighbourhoods, log-uniform
+    pub fn random_n(max: u32) -> BoxedStrategy<u32> {
+        let near: Vec<u32> = ladder_upto(max as u64 - 3).into_iter().map(|v| v as u32).collect();
+        let small: Vec<u32> = near.iter().copied().filter(|&v| v <= 70_001).collect();
+        prop_oneof![
+            5 => 200u32..=20_000,
+            4 => (proptest::sample::select(small), -3i32..=3).prop_map(|(v, d)| (v as i64 + d as i64) as u32),
+            1 => (proptest::sample::select(near), -3i32..=3).prop_map(|(v, d)| (v as i64 + d as i64) as u32),
+            1 => (8u32..=19, any::<u16>()).prop_map(move |(k, f)| ((1u32 << k) + (((f as u64) << k) >> 16) as u32).min(max)),
+        ]
+        .boxed()
+    }
+
+    fn size_classes(pass: &mut Pass, what: &str, n: u64) {
+        if is_ladder(n) {
+            pass.add(lab(what, n));
+        }
+        pass.add_if(n > 255, "size > 255");
+        pass.add_if(n > 16_384, "size > 16384");
+        pass.add_if(n > 32_768, "size > 32768");
+        pass.add_if(n > 65_536, "size > 65536");
+        pass.add_if(n > 131_073, "size > 131073");
+        pass.add_if(n >= 1 << 20, "size >= 2^20");
+    }
+
+    // -----------------------------------------------------------------------
+    pub mod bitenc {
+        use super::*;
+        use bio::data_structures::bitenc::BitEnc;
+
+        #[derive(Serialize, Deserialize, Debug, Clone, Copy, PartialEq, Eq)]
+        pub enum Mode {
+            /// n single pushes
+            Push,
+            /// `fill` pushes, then one push_values(n - fill, v)
+            PushValuesOnce,
+            /// push_values in chunks (chunk sizes: small, around the block capacity, ladder values) with changing values
+            PushValuesChunks,
+            /// pushes and short push_values interleaved
+            Mixed,
+        }
+
+        #[derive(Serialize, Deserialize, Debug, Clone, Copy, PartialEq, Eq)]
+        pub enum Vals {
+            Random,
+            /// 0xff (wider than every field below 8 bits)
+            AllOnes,
+            /// i mod 256
+            Counter,
+            Zero,
+        }
+
+        #[derive(Serialize, Deserialize, Debug, Clone)]
+        pub struct Case {
+            pub width: u8,
+            /// final number of symbols (mode PushValuesOnce: the count handed to push_values, after 0..=32/width pushes)
+            pub n: u32,
+            pub mode: Mode,
+            pub vals: Vals,
+            /// construct with BitEnc::with_capacity(width, n) instead of BitEnc::new(width)
+            pub with_capacity: bool,
+            pub seed: u64,
+        }
+
+        #[allow(deprecated)]
+        fn compare_full(be: &BitEnc, model: &[u8], w: usize, stage: &str, c: &Case) -> Result<(), Stop> {
+            let per_block = 32 / w;
+            let n = model.len();
+            ensure!(be.nr_symbols() == n && be.len() == n, "{}: nr_symbols()={} len()={}, model length {}; {:?}", stage, be.nr_symbols(), be.len(), n, c);
+            ensure!(be.is_empty() == (n == 0), "{}: is_empty()={} but model length {}; {:?}", stage, be.is_empty(), n, c);
+            let blocks = (n + per_block - 1) / per_block;
+            ensure!(be.nr_blocks() == blocks, "{}: nr_blocks()={} but {} symbols at {} per block need {}; {:?}", stage, be.nr_blocks(), n, per_block, blocks, c);
+            for (i, &m) in model.iter().enumerate() {
+                let g = be.get(i);
+                ensure!(g == Some(m), "{}: get({}) = {:?}, model has {} (length {}); {:?}", stage, i, g, m, n, c);
+            }
+            for beyond in [n, n + 1, n + per_block, n + 65_536, usize::MAX / 16] {
+                let g = be.get(beyond);
+                ensure!(g.is_none(), "{}: get({}) = {:?} although the length is {}; {:?}", stage, beyond, g, n, c);
+            }
+            let mut cnt = 0usize;
+            for (i, v) in be.iter().take(n + 2).enumerate() {
+                ensure!(i < n, "{}: iter() yields more than the {} stored symbols; {:?}", stage, n, c);
+                ensure!(v == model[i], "{}: iter() item {} = {}, model has {} (length {}); {:?}", stage, i, v, model[i], n, c);
+                cnt += 1;
+            }
+            ensure!(cnt == n, "{}: iter() yields {} items, expected {}; {:?}", stage, cnt, n, c);
+            Ok(())
+        }
+
+        pub fn check(c: &Case) -> R {
+            watched(serde_json::to_string(c).unwrap_or_default(), || check_inner(c))
+        }
+
+        fn check_inner(c: &Case) -> R {
+            let w = c.width as usize;
+            ensure!((1..=8).contains(&w), "harness: width {} outside 1..=8", w);
+            let n = c.n as usize;
+            ensure!(n >= 1 && n <= (1 << 21), "harness: n {} outside 1..=2^21", n);
+            let mask: u8 = ((1u16 << w) - 1) as u8;
+            let per_block = 32 / w;
+            let mut rng = Rng::new(c.seed);
+            let mut pass = Pass::new(true);
+            let mut be = if c.with_capacity { BitEnc::with_capacity(w, n) } else { BitEnc::new(w) };
+            compare_full(&be, &[], w, "fresh container", c)?;
+            let mut model: Vec<u8> = Vec::with_capacity(n + 64);
+            let val = |i: usize, rng: &mut Rng| -> u8 {
+                match c.vals {
+                    Vals::Random => rng.next() as u8,
+                    Vals::AllOnes => 0xff,
+                    Vals::Counter => i as u8,
+                    Vals::Zero => 0,
+                }
+            };
+            let mut largest_pv = 0usize;
+            match c.mode {
+                Mode::Push => {
+                    for i in 0..n {
+                        let v = val(i, &mut rng);
+                        be.push(v);
+                        model.push(v & mask);
+                    }
+                }
+                Mode::PushValuesOnce => {
+                    // here `n` is the push_values count; the container holds `fill` symbols before
+                    let fill = rng.below(per_block as u64 + 1) as usize;
+                    for i in 0..fill {
+                        let v = val(i, &mut rng);
+                        be.push(v);
+                        model.push(v & mask);
+                    }
+                    let v = val(fill, &mut rng) | 1;
+                    be.push_values(n, v);
+                    model.resize(fill + n, v & mask);
+                    largest_pv = n;
+                    pass.add_if(fill > 0, "push_values: one call from a partially filled block");
+                    pass.add_if(fill == 0, "push_values: one call into an empty container");
+                }
+                Mode::PushValuesChunks => {
+                    let ladder = ladder_upto(n as u64);
+                    let mut k = 0usize;
+                    while model.len() < n {
+                        let left = n - model.len();
+                        let want = match k % 4 {
+                            0 => 1 + rng.below(2 * per_block as u64 + 2) as usize,
+                            1 if !ladder.is_empty() => ladder[rng.below(ladder.len() as u64) as usize] as usize,
+                            2 => per_block * (1 + rng.below(40) as usize) + rng.below(3) as usize,
+                            _ => 1 + rng.below(5000) as usize,
+                        };
+                        let m = want.min(left);
+                        let v = val(k, &mut rng);
+                        be.push_values(m, v);
+                        let l = model.len();
+                        model.resize(l + m, v & mask);
+                        largest_pv = largest_pv.max(m);
+                        k += 1;
+                    }
+                }
+                Mode::Mixed => {
+                    let mut k = 0usize;
+                    while model.len() < n {
+                        let left = n - model.len();
+                        let v = val(k, &mut rng);
+                        if rng.chance(2, 3) {
+                            be.push(v);
+                            model.push(v & mask);
+                        } else {
+                            let m = (rng.below(3 * per_block as u64 + 1) as usize).min(left);
+                            be.push_values(m, v);
+                            let l = model.len();
+                            model.resize(l + m, v & mask);
+                            largest_pv = largest_pv.max(m);
+                        }
+                        k += 1;
+                    }
+                }
+            }
+            compare_full(&be, &model, w, "after construction", c)?;
+
+            // set at sampled positions (around every ladder value, first/last, block boundaries)
+            let blocks_at: Vec<u64> = [8192u64, 16384, 65536].iter().map(|b| b / w as u64).collect();
+            let n = model.len();
+            let pos = sample_positions(n as u64, &blocks_at, &mut rng, 200);
+            for &p in &pos {
+                let v = rng.next() as u8;
+                be.set(p as usize, v);
+                model[p as usize] = v & mask;
+            }
+            // neighbours of the written slots must be untouched: full comparison
+            compare_full(&be, &model, w, "after set at sampled positions", c)?;
+
+            // history that reuses the container: clear, then a different length
+            be.clear();
+            model.clear();
+            compare_full(&be, &model, w, "after clear", c)?;
+            let n2 = 1 + rng.below(3 * per_block as u64 + 70) as usize;
+            let v = rng.next() as u8;
+            be.push_values(n2, v);
+            model.resize(n2, v & mask);
+            let v = rng.next() as u8;
+            be.push(v);
+            model.push(v & mask);
+            compare_full(&be, &model, w, "after clear and refill", c)?;
+
+            if c.mode != Mode::PushValuesOnce {
+                size_classes(&mut pass, "bitenc n", n as u64);
+            }
+            if is_ladder(largest_pv as u64) {
+                pass.add(lab("bitenc push_values count", largest_pv as u64));
+            }
+            pass.add_if(largest_pv > 65_536, "push_values count > 65536");
+            let wl = ["", "width 1", "width 2", "width 3", "width 4", "width 5", "width 6", "width 7", "width 8"][w];
+            pass.add(wl);
+            if n > 65_536 {
+                pass.add(["", "width 1, n > 65536", "width 2, n > 65536", "width 3, n > 65536", "width 4, n > 65536", "width 5, n > 65536", "width 6, n > 65536", "width 7, n > 65536", "width 8, n > 65536"][w]);
+            }
+            if n >= 1 << 20 {
+                pass.add(["", "width 1, n >= 2^20", "width 2, n >= 2^20", "width 3, n >= 2^20", "width 4, n >= 2^20", "width 5, n >= 2^20", "width 6, n >= 2^20", "width 7, n >= 2^20", "width 8, n >= 2^20"][w]);
+            }
+            pass.add(match c.mode {
+                Mode::Push => "mode push",
+                Mode::PushValuesOnce => "mode push_values once",
+                Mode::PushValuesChunks => "mode push_values chunks",
+                Mode::Mixed => "mode mixed",
+            });
+            pass.add_if(c.with_capacity, "BitEnc::with_capacity");
+            pass.add_if(c.with_capacity && n > 65_536, "BitEnc::with_capacity, n > 65536");
+            pass.add_if(n * w > 65_536, "more than 65536 payload bits");
+            Ok(pass)
+        }
+
+        pub fn enumerate(t: Tier) -> Box<dyn Iterator<Item = Case>> {
+            let mut v = Vec::new();
+            let reps: u64 = if t == Tier::Quick { 1 } else { 6 };
+            let mut k = 0u64;
+            for rep in 0..reps {
+                for &n in LADDER.iter() {
+                    for width in 1u8..=8 {
+                        let modes: &[Mode] = if n <= 131_073 || t == Tier::Thorough {
+                            &[Mode::Push, Mode::PushValuesOnce, Mode::PushValuesChunks, Mode::Mixed]
+                        } else {
+                            &[Mode::Push, Mode::PushValuesOnce]
+                        };
+                        for &mode in modes {
+                            k += 1;
+                            let vals = [Vals::Random, Vals::AllOnes, Vals::Counter, Vals::Random, Vals::Zero][((k + rep) % 5) as usize];
+                            v.push(Case { width, n: n as u32, mode, vals, with_capacity: (k + rep) % 3 == 0, seed: 0xb17e + k * 7919 + rep * 104_729 });
+                        }
+                    }
+                }
+            }
+            Box::new(v.into_iter())
+        }
+
+        pub fn strat(_t: Tier) -> BoxedStrategy<Case> {
+            (
+                1u8..=8,
+                random_n(1 << 20),
+                prop_oneof![Just(Mode::Push), Just(Mode::PushValuesOnce), Just(Mode::PushValuesChunks), Just(Mode::Mixed)],
+                prop_oneof![3 => Just(Vals::Random), 1 => Just(Vals::AllOnes), 1 => Just(Vals::Counter), 1 => Just(Vals::Zero)],
+                any::<bool>(),
+                any::<u64>(),
+            )
+                .prop_map(|(width, n, mode, vals, with_capacity, seed)| Case { width, n, mode, vals, with_capacity, seed })
+                .boxed()
+        }
+    }
+
+    // -----------------------------------------------------------------------
+    pub mod smallints {
+        use super::*;
+        use crate::props::c18::smallints::{limits, Pair};
+        use bio::data_structures::smallints::SmallInts;
+
+        #[derive(Serialize, Deserialize, Debug, Clone, Copy, PartialEq, Eq)]
+        pub enum Pat {
+            /// every value is diverted (>= the small maximum): more than 65536 entries in the ordered map
+            AllBig,
+            /// every value equals the small maximum exactly
+            AllMax,
+            /// big, small, big, small ...
+            Alternating,
+            /// one big value in a hundred
+            Sparse,
+            /// big values only at the ladder positions (+-1), first and last
+            BigAtLadder,
+            /// values below the small minimum (signed pairs; falls back to AllBig for unsigned ones)
+            BelowMin,
+            AllSmall,
+        }
+
+        #[derive(Serialize, Deserialize, Debug, Clone, Copy, PartialEq, Eq)]
+        pub enum Ctor {
+            New,
+            /// SmallInts::with_capacity(n)
+            WithCapacity,
+            /// SmallInts::from_elem(small value, n), then set(i, value) for every i
+            FromElemThenSet,
+        }
+
+        #[derive(Serialize, Deserialize, Debug, Clone)]
+        pub struct Case {
+            pub pair: Pair,
+            pub n: u32,
+            pub pat: Pat,
+            pub ctor: Ctor,
+            pub seed: u64,
+        }
+
+        /// value at index i as i128 (inside the big type's range by construction)
+        fn value(c: &Case, i: usize, r: u64, ladder_pos: &[u64]) -> i128 {
+            let (smin, smax, bmin, bmax) = limits(c.pair);
+            let span = smax - smin; // number of small values
+            let small = smin + (r % span as u64) as i128;
+            let big = match r % 5 {
+                0 => smax,
+                1 => smax + 1 + (i as i128 % 1000),
+                2 => bmax - (i as i128),
+                3 => smax + (r as i128 & 0xffff_ffff),
+                _ => {
+                    if bmin < 0 {
+                        smin - 1 - (i as i128 % 1000)
+                    } else {
+                        smax + 2
+                    }
+                }
+            };
+            let big = big.clamp(bmin, bmax);
+            match c.pat {
+                Pat::AllBig => big,
+                Pat::AllMax => smax,
+                Pat::Alternating => {
+                    if i % 2 == 0 {
+                        big
+                    } else {
+                        small
+                    }
+                }
+                Pat::Sparse => {
+                    if r % 100 == 7 {
+                        big
+                    } else {
+                        small
+                    }
+                }
+                Pat::BigAtLadder => {
+                    if ladder_pos.binary_search(&(i as u64)).is_ok() {
+                        big
+                    } else {
+                        small
+                    }
+                }
+                Pat::BelowMin => {
+                    if bmin < 0 {
+                        (smin - 1 - (i as i128)).max(bmin)
+                    } else {
+                        big
+                    }
+                }
+                Pat::AllSmall => small,
+            }
+        }
+
+        macro_rules! run_large {
+            ($S:ty, $B:ty, $case:expr) => {{
+                let c: &Case = $case;
+                let n = c.n as usize;
+                let (smin, smax, _bmin, _bmax) = limits(c.pair);
+                let mut rng = Rng::new(c.seed);
+                let ladder_pos = sample_positions(n as u64, &[], &mut Rng::new(1), 0);
+                let mut model: Vec<$B> = Vec::with_capacity(n);
+                for i in 0..n {
+                    let r = rng.next();
+                    model.push(value(c, i, r, &ladder_pos) as $B);
+                }
+                let is_big = |v: $B| (v as i128) >= smax || (v as i128) < smin;
+                let mut si: SmallInts<$S, $B> = match c.ctor {
+                    Ctor::New => SmallInts::new(),
+                    Ctor::WithCapacity => SmallInts::with_capacity(n),
+                    Ctor::FromElemThenSet => SmallInts::from_elem((smax - 1) as $S, n),
+                };
+                match c.ctor {
+                    Ctor::New | Ctor::WithCapacity => {
+                        ensure!(si.len() == 0 && si.is_empty() && si.get(0).is_none(), "{:?}: fresh container is not empty (len {})", c, si.len());
+                        for &v in &model {
+                            si.push(v);
+                        }
+                    }
+                    Ctor::FromElemThenSet => {
+                        ensure!(si.len() == n, "{:?}: from_elem(_, {}) has length {}", c, n, si.len());
+                        for i in sample_positions(n as u64, &[], &mut Rng::new(2), 50) {
+                            let g = si.get(i as usize);
+                            ensure!(g == Some((smax - 1) as $B), "{:?}: from_elem({}, {}).get({}) = {:?}", c, smax - 1, n, i, g);
+                        }
+                        for (i, &v) in model.iter().enumerate() {
+                            si.set(i, v);
+                        }
+                    }
+                }
+                let full = |si: &SmallInts<$S, $B>, model: &[$B], stage: &str| -> Result<(), Stop> {
+                    let n = model.len();
+                    ensure!(si.len() == n && si.is_empty() == (n == 0), "{:?} {}: len()={} is_empty()={}, model length {}", c, stage, si.len(), si.is_empty(), n);
+                    for (i, &m) in model.iter().enumerate() {
+                        let g = si.get(i);
+                        ensure!(g == Some(m), "{:?} {}: get({}) = {:?}, model has {}", c, stage, i, g, m);
+                    }
+                    for beyond in [n, n + 1, n + 65_536, usize::MAX] {
+                        let g = si.get(beyond);
+                        ensure!(g.is_none(), "{:?} {}: get({}) = {:?} although the length is {}", c, stage, beyond, g, n);
+                    }
+                    let mut cnt = 0usize;
+                    for (i, v) in si.iter().take(n + 2).enumerate() {
+                        ensure!(i < n, "{:?} {}: iter() yields more than {} items", c, stage, n);
+                        ensure!(v == model[i], "{:?} {}: iter() item {} = {}, model has {}", c, stage, i, v, model[i]);
+                        cnt += 1;
+                    }
+                    ensure!(cnt == n, "{:?} {}: iter() yields {} items, expected {}", c, stage, cnt, n);
+                    let de: Vec<$B> = si.decompress();
+                    ensure!(de.len() == n, "{:?} {}: decompress() has {} items, expected {}", c, stage, de.len(), n);
+                    if let Some(i) = (0..n).find(|&i| de[i] != model[i]) {
+                        return Err(Stop::Fail(format!("{:?} {}: decompress()[{}] = {}, model has {}", c, stage, i, de[i], model[i])));
+                    }
+                    Ok(())
+                };
+                full(&si, &model, "after construction")?;
+                let nbig = model.iter().filter(|&&v| is_big(v)).count();
+
+                // flip big <-> small at sampled positions
+                let pos = sample_positions(n as u64, &[], &mut rng, 300);
+                let (mut b2s, mut s2b) = (0usize, 0usize);
+                for &p in &pos {
+                    let p = p as usize;
+                    let r = rng.next();
+                    let was_big = is_big(model[p]);
+                    let new: i128 = if was_big && r % 4 != 0 { smin + (r % (smax - smin) as u64) as i128 } else { smax + (r % 3) as i128 };
+                    let new = new as $B;
+                    si.set(p, new);
+                    model[p] = new;
+                    if was_big && !is_big(new) {
+                        b2s += 1;
+                    }
+                    if !was_big && is_big(new) {
+                        s2b += 1;
+                    }
+                }
+                full(&si, &model, "after set at sampled positions")?;
+                // pushes after the sets (indices continue beyond the old length)
+                for k in 0..5usize {
+                    let v = (if k % 2 == 0 { smax + k as i128 } else { smin }) as $B;
+                    si.push(v);
+                    model.push(v);
+                }
+                full(&si, &model, "after five more pushes")?;
+
+                let mut pass = Pass::new(true);
+                size_classes(&mut pass, "smallints n", n as u64);
+                if is_ladder(nbig as u64) {
+                    pass.add(lab("smallints big values", nbig as u64));
+                }
+                pass.add_if(nbig > 255, "big values > 255");
+                pass.add_if(nbig > 65_536, "big values > 65536");
+                pass.add_if(nbig >= 1 << 19, "big values >= 2^19");
+                pass.add_if(b2s > 0, "set big -> small");
+                pass.add_if(s2b > 0, "set small -> big");
+                Ok(pass)
+            }};
+        }
+
+        pub fn check(c: &Case) -> R {
+            watched(serde_json::to_string(c).unwrap_or_default(), || check_inner(c))
+        }
+
+        fn check_inner(c: &Case) -> R {
+            ensure!(c.n >= 1 && c.n <= (1 << 21), "harness: n {} outside 1..=2^21", c.n);
+            let mut r: R = match c.pair {
+                Pair::I8Isize => run_large!(i8, isize, c),
+                Pair::U8Usize => run_large!(u8, usize, c),
+                Pair::I8I64 => run_large!(i8, i64, c),
+                Pair::U16U64 => run_large!(u16, u64, c),
+            };
+            if let Ok(p) = &mut r {
+                p.add(match c.pair {
+                    Pair::I8Isize => "SmallInts<i8,isize>",
+                    Pair::U8Usize => "SmallInts<u8,usize>",
+                    Pair::I8I64 => "SmallInts<i8,i64>",
+                    Pair::U16U64 => "SmallInts<u16,u64>",
+                });
+                p.add(match c.pat {
+                    Pat::AllBig => "pattern all big",
+                    Pat::AllMax => "pattern all equal to the small maximum",
+                    Pat::Alternating => "pattern alternating",
+                    Pat::Sparse => "pattern sparse",
+                    Pat::BigAtLadder => "pattern big at ladder positions",
+                    Pat::BelowMin => "pattern below the small minimum",
+                    Pat::AllSmall => "pattern all small",
+                });
+                p.add(match c.ctor {
+                    Ctor::New => "ctor new",
+                    Ctor::WithCapacity => "ctor with_capacity(n)",
+                    Ctor::FromElemThenSet => "ctor from_elem(n) then set everywhere",
+                });
+                p.add_if(c.ctor == Ctor::WithCapacity && c.n > 65_536, "with_capacity(n), n > 65536");
+                p.add_if(c.ctor == Ctor::FromElemThenSet && c.n > 65_536, "from_elem(n), n > 65536");
+            }
+            r
+        }
+
+        const PAIRS: [Pair; 4] = [Pair::I8Isize, Pair::U8Usize, Pair::I8I64, Pair::U16U64];
+        const PATS: [Pat; 7] = [Pat::AllBig, Pat::Alternating, Pat::AllMax, Pat::Sparse, Pat::BigAtLadder, Pat::BelowMin, Pat::AllSmall];
+        const CTORS: [Ctor; 3] = [Ctor::New, Ctor::WithCapacity, Ctor::FromElemThenSet];
+
+        pub fn enumerate(t: Tier) -> Box<dyn Iterator<Item = Case>> {
+            let mut v = Vec::new();
+            let mut k = 0usize;
+            let mut rot = 0usize;
+            let reps = if t == Tier::Quick { 1 } else { 5 };
+            for rep in 0..reps {
+                for &n in LADDER.iter() {
+                    // every n with the all-big pattern (number of diverted values = n); the other patterns rotate
+                    let npat = if t == Tier::Thorough {
+                        7
+                    } else if n <= 70_001 {
+                        3
+                    } else if n <= 131_073 {
+                        2
+                    } else {
+                        1
+                    };
+                    for j in 0..npat {
+                        k += 1;
+                        let pat = if j == 0 {
+                            Pat::AllBig
+                        } else if t == Tier::Thorough {
+                            PATS[j]
+                        } else {
+                            rot += 1;
+                            PATS[1 + rot % 6]
+                        };
+                        v.push(Case { pair: PAIRS[(k + rep) % 4], n: n as u32, pat, ctor: CTORS[(k / 2 + rep) % 3], seed: 0x51a1 + k as u64 * 6151 + rep as u64 * 15_485_863 });
+                    }
+                }
+            }
+            Box::new(v.into_iter())
+        }
+
+        pub fn strat(_t: Tier) -> BoxedStrategy<Case> {
+            (proptest::sample::select(PAIRS.to_vec()), random_n(1 << 19), proptest::sample::select(PATS.to_vec()), proptest::sample::select(CTORS.to_vec()), any::<u64>())
+                .prop_map(|(pair, n, pat, ctor, seed)| Case { pair, n, pat, ctor, seed })
+                .boxed()
+        }
+    }
+
+    // -----------------------------------------------------------------------
+    pub mod fenwick {
+        use super::*;
+        use crate::props::c18::fenwick::Kind;
+        use bio::data_structures::bit_tree::{MaxBitTree, SumBitTree};
+
+        #[derive(Serialize, Deserialize, Debug, Clone, Copy, PartialEq, Eq)]
+        pub enum Pat {
+            /// one update at every index, ascending
+            EveryAsc,
+            /// one update at every index, descending
+            EveryDesc,
+            /// updates at first/last, around every ladder value and every power of two, and a few hundred random indices
+            Sampled,
+            /// n/2 updates at random indices (repeats)
+            Random,
+        }
+
+        #[derive(Serialize, Deserialize, Debug, Clone)]
+        pub struct Case {
+            pub kind: Kind,
+            /// tree length
+            pub n: u32,
+            pub pat: Pat,
+            pub seed: u64,
+        }
+
+        fn update_indices(c: &Case, rng: &mut Rng, round: u32) -> Vec<usize> {
+            let n = c.n as usize;
+            let pows: Vec<u64> = (1..=21).map(|k| 1u64 << k).collect();
+            match (c.pat, round) {
+                (Pat::EveryAsc, 0) => (0..n).collect(),
+                (Pat::EveryDesc, 0) => (0..n).rev().collect(),
+                (Pat::Random, 0) => (0..(n / 2).max(1)).map(|_| rng.below(n as u64) as usize).collect(),
+                _ => {
+                    let mut v: Vec<usize> = sample_positions(n as u64, &pows, rng, 300).into_iter().map(|x| x as usize).collect();
+                    rng.shuffle(&mut v);
+                    v
+                }
+            }
+        }
+
+        pub fn check(c: &Case) -> R {
+            watched(serde_json::to_string(c).unwrap_or_default(), || check_inner(c))
+        }
+
+        fn check_inner(c: &Case) -> R {
+            let n = c.n as usize;
+            ensure!(n >= 1 && n <= (1 << 21), "harness: length {} outside 1..=2^21", n);
+            let mut rng = Rng::new(c.seed);
+            let mut pass = Pass::new(true);
+            let mut updates = 0usize;
+            match c.kind {
+                Kind::Sum => {
+                    let mut t: SumBitTree<i64> = SumBitTree::new(n);
+                    let mut model = vec![0i64; n];
+                    for round in 0..2u32 {
+                        for i in update_indices(c, &mut rng, round) {
+                            // |value| < 2^40, fewer than 2^21 updates: every prefix sum stays inside i64
+                            let a = (rng.below(1 << 41) as i64) - (1 << 40);
+                            t.set(i, a);
+                            model[i] += a;
+                            updates += 1;
+                        }
+                        let mut acc = 0i64;
+                        for i in 0..n {
+                            acc += model[i];
+                            let got = t.get(i);
+                            ensure!(got == acc, "{:?}: after round {} ({} updates) sum tree get({}) = {}, prefix sum of the updates = {}", c, round, updates, i, got, acc);
+                        }
+                    }
+                }
+                Kind::Max => {
+                    let mut t: MaxBitTree<(u32, u32)> = MaxBitTree::new(n);
+                    let mut model = vec![(0u32, 0u32); n];
+                    for round in 0..2u32 {
+                        for i in update_indices(c, &mut rng, round) {
+                            let r = rng.next();
+                            // increasing with the index (plus jitter and rare local spikes) so that the prefix maximum
+                            // keeps changing along the whole tree; odd seeds work just below u32::MAX
+                            let base: u32 = if c.seed % 2 == 1 { u32::MAX - (n as u32 / 3) - 20_000 } else { 0 };
+                            let spike: u32 = if r % 64 == 0 { 10_000 } else { 0 };
+                            let a = base + (i as u32 / 3) + ((r >> 8) as u32 % 7) + spike;
+                            let v = (a, r as u32 >> 4);
+                            t.set(i, v);
+                            model[i] = model[i].max(v);
+                            updates += 1;
+                        }
+                        let mut acc = (0u32, 0u32);
+                        for i in 0..n {
+                            acc = acc.max(model[i]);
+                            let got = t.get(i);
+                            ensure!(got == acc, "{:?}: after round {} ({} updates) max tree get({}) = {:?}, prefix maximum of the updates = {:?}", c, round, updates, i, got, acc);
+                        }
+                    }
+                }
+            }
+            size_classes(&mut pass, "fenwick length", n as u64);
+            let nn = n as u64;
+            if nn >= 2 && (nn.is_power_of_two() || (nn + 1).is_power_of_two() || (nn - 1).is_power_of_two()) {
+                pass.add(lab("fenwick length (2^k-1, 2^k, 2^k+1)", nn));
+            }
+            pass.add(match c.kind {
+                Kind::Sum => "sum tree",
+                Kind::Max => "max tree",
+            });
+            pass.add(match c.pat {
+                Pat::EveryAsc => "updates: every index ascending",
+                Pat::EveryDesc => "updates: every index descending",
+                Pat::Sampled => "updates: sampled indices",
+                Pat::Random => "updates: random indices",
+            });
+            pass.add_if(updates > 65_536, "more than 65536 updates");
+            Ok(pass)
+        }
+
+        pub fn lengths() -> Vec<u64> {
+            let mut l = pow2_triples(1, 20);
+            l.extend(LADDER.iter().copied());
+            l.sort_unstable();
+            l.dedup();
+            l
+        }
+
+        const PATS: [Pat; 4] = [Pat::EveryAsc, Pat::Sampled, Pat::EveryDesc, Pat::Random];
+
+        pub fn enumerate(t: Tier) -> Box<dyn Iterator<Item = Case>> {
+            let mut v = Vec::new();
+            let mut k = 0usize;
+            let reps = if t == Tier::Quick { 1 } else { 4 };
+            for rep in 0..reps {
+                for &n in lengths().iter() {
+                    for kind in [Kind::Sum, Kind::Max] {
+                        let npat = if t == Tier::Thorough { 4 } else { 2 };
+                        for j in 0..npat {
+                            k += 1;
+                            v.push(Case { kind, n: n as u32, pat: PATS[(k / 2 + j + rep) % 4], seed: 0xfe2 + k as u64 * 4241 + rep as u64 * 32_452_843 });
+                        }
+                    }
+                }
+            }
+            Box::new(v.into_iter())
+        }
+
+        pub fn strat(_t: Tier) -> BoxedStrategy<Case> {
+            (prop_oneof![Just(Kind::Sum), Just(Kind::Max)], random_n(1 << 20), proptest::sample::select(PATS.to_vec()), any::<u64>())
+                .prop_map(|(kind, n, pat, seed)| Case { kind, n, pat, seed })
+                .boxed()
+        }
+    }
+
+    /// must_reach lists (ladder values are interned labels)
+    pub fn must_bitenc() -> &'static [&'static str] {
+        use crate::oracles::scale::c071718::{labels, leak_list};
+        let mut v = labels("bitenc n", &LADDER);
+        v.extend(labels("bitenc push_values count", &LADDER));
+        for w in 1..=8 {
+            v.push(crate::oracles::scale::c071718::intern(format!("width {}, n > 65536", w)));
+            v.push(crate::oracles::scale::c071718::intern(format!("width {}, n >= 2^20", w)));
+        }
+        v.extend(["mode push", "mode push_values once", "mode push_values chunks", "mode mixed", "BitEnc::with_capacity, n > 65536", "push_values count > 65536", "push_values: one call from a partially filled block"]);
+        leak_list(v)
+    }
+    pub fn must_smallints() -> &'static [&'static str] {
+        use crate::oracles::scale::c071718::{labels, leak_list};
+        let mut v = labels("smallints n", &LADDER);
+        v.extend(labels("smallints big values", &LADDER));
+        v.extend([
+            "big values > 65536", "big values >= 2^19", "SmallInts<i8,isize>", "SmallInts<u8,usize>", "SmallInts<i8,i64>", "SmallInts<u16,u64>",
+            "with_capacity(n), n > 65536", "from_elem(n), n > 65536", "set big -> small", "set small -> big", "pattern alternating", "pattern all equal to the small maximum",
+        ]);
+        leak_list(v)
+    }
+    pub fn must_fenwick() -> &'static [&'static str] {
+        use crate::oracles::scale::c071718::{labels, leak_list};
+        let mut v = labels("fenwick length", &LADDER);
+        v.extend(labels("fenwick length (2^k-1, 2^k, 2^k+1)", &pow2_triples(1, 20)[1..]));
+        v.extend(["sum tree", "max tree", "updates: every index ascending", "updates: every index descending", "updates: sampled indices", "updates: random indices", "more than 65536 updates"]);
+        leak_list(v)
+    }
+}
+
 pub fn property() -> Property {
     Property {
         id: "C18",
-        rule: "histories vec(op, 0..40) interpreted against the real container and a Vec model in lock-step, with a full comparison of everything observable after every operation. BitEnc: width 1..=8, ops push / push_values(n<=70) / set(in range) / get(any index) / iter / clear, values over the full u8 range, compared width-masked; observed nr_symbols, len, is_empty, nr_blocks = ceil(len / (32 div width)), every get, four out-of-range gets, iter. Plus an exhaustive sweep width x fill state x push_values count x value. SmallInts<i8,isize>, <u8,usize>, <i8,i64>, <u16,u64>: new / with_capacity / from_elem / push / set / get / iter / decompress with values drawn around the small maximum, negatives, below the small minimum and the big type's limits. Fenwick: length 0..=64, sum tree over i64 and max tree over (u32,u32), every index compared with the model prefix after every update. Non-trivial = BitEnc: width in {3,5,6,7} and a push_values that crosses a block boundary from a partially filled block; SmallInts: history with a big value, a small value and a set; Fenwick: length >= 3 and >= 3 updates. Distinct = distinct serialised histories.",
+        rule: "histories vec(op, 0..40) interpreted against the real container and a Vec model in lock-step, with a full comparison of everything observable after every operation. BitEnc: width 1..=8, ops push / push_values(n<=70) / set(in range) / get(any index) / iter / clear, values over the full u8 range, compared width-masked; observed nr_symbols, len, is_empty, nr_blocks = ceil(len / (32 div width)), every get, four out-of-range gets, iter. Plus an exhaustive sweep width x fill state x push_values count x value. SmallInts<i8,isize>, <u8,usize>, <i8,i64>, <u16,u64>: new / with_capacity / from_elem / push / set / get / iter / decompress with values drawn around the small maximum, negatives, below the small minimum and the big type's limits. Fenwick: length 0..=64, sum tree over i64 and max tree over (u32,u32), every index compared with the model prefix after every update. Non-trivial = BitEnc: width in {3,5,6,7} and a push_values that crosses a block boundary from a partially filled block; SmallInts: history with a big value, a small value and a set; Fenwick: length >= 3 and >= 3 updates. Distinct = distinct serialised histories. Large-scale sub-checks (large-*): the same observations on containers whose length, push_values count, number of diverted big values resp. Fenwick length is every value of the ladder 255/256/257, 511..513, 1023..1025, 4095..4097, 8191..8193, 16383..16385, 32767..32769, 65535..65537, 70001, 131071..131073, 2^19+-1, 2^20+-1 (Fenwick: also every 2^k-1, 2^k, 2^k+1 up to 2^20+1), for every BitEnc width, every SmallInts pair and both Fenwick operations; the case holds generator parameters and a seed (splitmix64 expansion), the comparison with the Vec model is complete (every index, iter, decompress, block count) after construction, after set at sampled positions (around every ladder value and block boundary) and after clear-and-reuse; constructors BitEnc::with_capacity, SmallInts::with_capacity(n) and from_elem(v, n) at these sizes.",
         assumptions: &[
             "BitEnc::set and SmallInts::set are only called with an index below the current length (a vector refuses others); Fenwick get/set only with an index below the tree length",
             "SmallInts::from_elem is only given a value below the small type's maximum (documented: 'v is expected to be small')",
             "BitEnc width 0 is not a width (the property quantifies over 1..=8)",
         ],
         subs: vec![
+            // the enumerated ladders are single long jobs: queued first so that they overlap with everything else
+            Box::new(ExhSub { name: "C18/large-bitenc-ladder", enumerate: large::bitenc::enumerate, check: large::bitenc::check, must_reach: large::must_bitenc() }),
+            Box::new(ExhSub { name: "C18/large-smallints-ladder", enumerate: large::smallints::enumerate, check: large::smallints::check, must_reach: large::must_smallints() }),
+            Box::new(ExhSub { name: "C18/large-fenwick-ladder", enumerate: large::fenwick::enumerate, check: large::fenwick::check, must_reach: large::must_fenwick() }),
+            Box::new(PropSub {
+                name: "C18/large-bitenc-random",
+                quick: 1_920,
+                thorough: 38_400,
+                shards_quick: 8,
+                shards_thorough: 16,
+                strat: large::bitenc::strat,
+                check: large::bitenc::check,
+                must_reach: &["size > 65536", "mode push", "mode push_values once", "mode push_values chunks", "mode mixed", "BitEnc::with_capacity"],
+                watch: true,
+            }),
+            Box::new(PropSub {
+                name: "C18/large-smallints-random",
+                quick: 240,
+                thorough: 4_800,
+                shards_quick: 8,
+                shards_thorough: 16,
+                strat: large::smallints::strat,
+                check: large::smallints::check,
+                must_reach: &["size > 65536", "big values > 255", "ctor with_capacity(n)", "ctor from_elem(n) then set everywhere"],
+                watch: true,
+            }),
+            Box::new(PropSub {
+                name: "C18/large-fenwick-random",
+                quick: 640,
+                thorough: 12_800,
+                shards_quick: 8,
+                shards_thorough: 16,
+                strat: large::fenwick::strat,
+                check: large::fenwick::check,
+                must_reach: &["size > 65536", "sum tree", "max tree"],
+                watch: true,
+            }),
             Box::new(PropSub {
                 name: "C18/bitenc",
                 quick: 480_000,
